@@ -13,7 +13,8 @@ for name in names:
     rc=j.get('recheck',{})
     if rc.get('result')=='caught' and not sig:
         sig=(rc.get('signatures') or [''])[0].replace('sig=','').split(' ')[0][:80]
-    if r.get('caught_by_quick') or rc.get('result')=='caught': st='caught'; caught+=1
+    # the latest recheck against /repo's HEAD decides when there is one; annotations explain a miss
+    if rc.get('result')=='caught' or (not rc and r.get('caught_by_quick')): st='caught'; caught+=1
     elif r.get('caught_by_quick_before_fix'): st='caught (before a later fix removed the path; see meta)'; caught+=1
     elif r.get('caught_by_other_check'): st='caught by '+r['caught_by_other_check']+' (see meta)'; other+=1
     elif r.get('outside_property_as_stated'): st='not claimed (outside the property as stated; see meta)'; notclaimed+=1
